@@ -807,10 +807,11 @@ class C17(Spec):
     level = "other"
     design_ref = "DESIGN.md section 8 C17"
     trusted = ["tree nodes are an abstract model: a node is a term, its children (defaultdict, created on demand), error map and recorded instance are uninterpreted functions of it; dict / defaultdict behave as maps that raise TypeError only for unhashable keys (assumed)",
-               "that total_errors' defining equation gives the number of distinct (path, keyword) pairs needs the representation invariant established by the constructor, which is covered only by the bounded stand-in"]
+               "'same node' means 'same path' under the assumed defaultdict contract (a fresh child per (node, key): the child function is injective and acyclic)",
+               "that total_errors' defining equation gives the number of distinct (path, keyword) pairs, and that membership / iteration report exactly the continued paths, needs the representation invariant of the child maps, which is covered only by the bounded stand-in"]
     assumptions = ["path elements are str or int, the keyword is a str or None (what validation produces)",
-                   "the constructor's functional half (every error filed where its path says, membership / iteration / counts on the finished tree) is checked by the bounded stand-in over every arrival order - labelled bounded, not proof"]
-    explanation = "Proved: the constructor raises nothing for any sequence of errors in any order (inner-loop invariant: `container` is the node reached after k path elements; with the pre-fix code the same obligation fails because __getitem__ indexes the recorded instance); __contains__, __getitem__ (returns the child; raises only what instance[index] raises and only for an absent index with a recorded instance), __setitem__, __iter__ (all children), __len__ == total_errors; total_errors == len(errors) + sum of len(child) over every child, recursive calls by contract."
+                   "membership / iteration / counts on the finished tree are checked by the bounded stand-in over every arrival order - labelled bounded, not proof"]
+    explanation = "Proved: the constructor raises nothing for any sequence of errors in any order (inner-loop invariant: `container` is the node reached after k path elements; with the pre-fix code the same obligation fails because __getitem__ indexes the recorded instance) and files every error where its path says (outer-loop invariant over a ghost map of the nodes' errors dicts: the node an error's path leads to maps its keyword to an error filed at that node under that keyword); __contains__, __getitem__ (returns the child; raises only what instance[index] raises and only for an absent index with a recorded instance), __setitem__, __iter__ (all children), __len__ == total_errors; total_errors == len(errors) + sum of len(child) over every child, recursive calls by contract."
 
     def tasks(self, root, tier):
         from contracts import tasks_tree
